@@ -7,14 +7,16 @@ wt=${SEED_WT:-/tmp/wt/$id}; out=${SEED_OUT:-/tmp/wt-out/$id}; res=$out/verify$n.
 export CARGO_NET_OFFLINE=true CARGO_TARGET_DIR=/tmp/wt/target-shared
 : > $res
 cd $wt || exit 2
-git checkout -q -- . ; git clean -fdq -e target
+git checkout -q -- . ; git clean -fdq -e target; sleep 0.2; find src -name "*.rs" -newermt "-10 minutes" -exec touch {} + 2>/dev/null
 demo=tests/seed_demo_${lid}_$n.rs
 cp $out/demo$n.rs $demo
 cargo test --offline --test seed_demo_${lid}_$n > $out/v${n}_demo_base.log 2>&1; echo "demo_on_unchanged_rc=$?" >> $res
+sleep 0.2   # file timestamps tick every 4 ms here: a change made in the tick in which cargo finished would look fresh to cargo
 git apply $out/patch$n.diff || { echo "patch_applies=no" >> $res; git checkout -q -- .; rm -f $demo; exit 3; }
 echo "patch_applies=yes" >> $res
 cargo test --offline --test seed_demo_${lid}_$n > $out/v${n}_demo_mut.log 2>&1; echo "demo_on_changed_rc=$?" >> $res
 rm -f $demo
+sleep 0.2
 cargo test --workspace --no-fail-fast --offline > $out/v${n}_suite_mut.log 2>&1; echo "suite_on_changed_rc=$?" >> $res
 grep -E "^test result" $out/v${n}_suite_mut.log | awk '{p+=$4; f+=$6} END {print "suite_passed="p" suite_failed="f}' >> $res
 git checkout -q -- . ; git clean -fdq -e target
